@@ -77,7 +77,7 @@ def gen_pipeline(rng: random.Random, spark_ok=False):
         # few iterations: on tables this small a long EM run drives some m to exactly 0 and BOTH engines then raise on log2(0)
         "max_iter": rng.choice([2, 4, 6]), "shuffle": rng.randrange(1 << 30), "tag": "pipeline",
         # how every blocking rule of the scenario (prediction, prior, EM, analysis) is handed over; "declared": CustomRule(sql, sql_dialect=<this>)
-        "rule_form": rng.choice(["str", "str", "block_on", "dict", "declared:duckdb", "declared:sqlite", "declared:spark"]),
+        "rule_form": rng.choice(["str", "str", "block_on", "dict", "salted:2", "salted:3", "declared:duckdb", "declared:sqlite", "declared:spark"]),
         "prerender": rng.random() < 0.25,
     }
 
@@ -108,6 +108,8 @@ def pipe_rule(case, sql):
         return {"blocking_rule": sql}
     if form == "block_on":
         return brl.block_on(*re.findall(r"l\.(\w+) = r\.\1", sql))
+    if form.startswith("salted:"):
+        return {"blocking_rule": sql, "salting_partitions": int(form.split(":")[1])}  # salting only partitions the work: the same pairs
     return brl.CustomRule(sql, sql_dialect=form.split(":")[1])
 
 
